@@ -118,11 +118,11 @@ def build(u):
              'decreases': 'input.spec_bytes().len()',
          }],
          hints=[
-             {'at': 'tokens.push(to_final_token(token));', 'where': 'after',
+             {'at': 'tokens.push(', 'where': 'after',
               'text': '        proof { assert(tokens@.drop_last() == old_tokens_in_loop); }'},
-             {'at': 'tokens.push(to_final_token(token));', 'where': 'before',
+             {'at': 'tokens.push(', 'where': 'before',
               'text': '        let ghost old_tokens_in_loop = tokens@;'},
-             {'at': 'let (input, eof_token) = eof(input);', 'where': 'before',
+             {'at': 'let (input, eof_token) =', 'where': 'before',
               'text': '    let ghost old_tokens = tokens@;'},
              {'at': '(input, tokens)\n', 'where': 'before',
               'text': '    proof { assert(tokens@.drop_last() == old_tokens); }'},
@@ -142,7 +142,7 @@ def build(u):
              'None => blank_run(input.spec_bytes(), 0) == input.spec_bytes().len() }',
          ],
          hints=[
-             {'at': 'let (token_content, remaining) = input.split_at(end_exclusive);', 'where': 'after',
+             {'at': 'let (token_content, remaining) =', 'where': 'after',
               'text': '    proof {\n'
                       '        lemma_blank_run_prefix(input.spec_bytes(), 0, end_exclusive as int);\n'
                       '        assert(token_content.spec_bytes() =~= input.spec_bytes().subrange(0, end_exclusive as int));\n'
@@ -169,7 +169,7 @@ def build(u):
              'blank_run(input.spec_bytes(), 0) == input.spec_bytes().len() ==> '
              'r.0.spec_bytes().len() == 0 && blank_run(r.1.token_content.spec_bytes(), 0) == r.1.token_content.spec_bytes().len()',
          ],
-         hints=[{'at': 'let (token_content, remaining) = input.split_at(whitespace_count);', 'where': 'after',
+         hints=[{'at': 'let (token_content, remaining) =', 'where': 'after',
                  'text': '    proof { lemma_blank_run_bound(input.spec_bytes(), 0);\n'
                          '        if blank_run(input.spec_bytes(), 0) == input.spec_bytes().len() { assert(token_content.spec_bytes() =~= input.spec_bytes()); } }'}])
 
